@@ -74,6 +74,7 @@ def c08(run):
 def c09(run):
     return engine_prop(run, ["MC_parents.cfg"],
         [dict(profile="parents", n=n(run, 60, 800)),
+         dict(profile="dispatch", n=n(run, 150, 1000), label="dispatch-parents"),
          dict(profile="system", n=n(run, 36, 400), extra=["-via", "system", "-check", "off"], label="system")],
         "seeded histories spread over locations A,B,C with changing parent lists (self loops, indirect loops, diamonds), "
         "inherited searches, ListRules, SearchRules and events; every result and every location's storage ids are checked "
